@@ -273,7 +273,12 @@ class Analyzer:
             a = t['args'][0]
             if is_place(a):
                 return lin(self.atom_len({'l': a['pl']['l'], 'p': a['pl']['p'] + ['deref'], 'ty': ''}))
-        if n in ('rr::rdata::Rdata::len', 'name::Name::len'):
+        if n == 'rr::rdata::Rdata::len':
+            a = t['args'][0]
+            if is_place(a):
+                # Rdata::len(self) is self.octets.len()  (checked by the C18 rule `rdata-accessors`)
+                return lin('len:%s.octets' % self.fn.canon_str({'l': a['pl']['l'], 'p': a['pl']['p'] + ['deref'], 'ty': ''}))
+        if n == 'name::Name::len':
             a = t['args'][0]
             if is_place(a):
                 return lin('%s(%s)' % (n.split('::')[-2] + '.len', self.fn.canon_str({'l': a['pl']['l'], 'p': a['pl']['p'] + ['deref'], 'ty': ''})))
